@@ -292,6 +292,12 @@ func init() {
 		if clean != (e == nil) || (e == nil && !bytes.Equal(pt, o.released)) || (e != nil && pt != nil) {
 			fs = append(fs, Failure{Kind: "oracle", Key: "open-forms-disagree", Desc: fmt.Sprintf("stream: %.120s ; Open: %d bytes, %v", got, len(pt), e)})
 		}
+		if f := armoredFormFailure("open", input, saltpack.MessageTypeEncryption, e, pt, func(txt string) ([]byte, bool, error) {
+			_, p2, _, e2 := saltpack.Dearmor62DecryptOpen(vd, txt, ring)
+			return p2, false, e2
+		}); f != nil {
+			fs = append(fs, *f)
+		}
 		if w, ok := c.A["want"]; ok {
 			// a message a spec-following sender produced: must be accepted with exactly this outcome
 			bad := o.hdrErr != nil || o.end != io.EOF || !bytes.Equal(o.released, unhx(w))
